@@ -36,7 +36,7 @@ Definition rel (r : recvw) (q : rstate) : Prop :=
   rmsgs r <= N.of_nat (length (q_done q)) /\
   Forall (fun x => 0 < blen x < 65536) (q_done q).
 
-Lemma rel_init win seq : rel (mkRW [] 0 win 0 seq 0) rs_init.
+Lemma rel_init lvl al seq : rel (mkRW [] 0 lvl al seq 0) rs_init.
 Proof. unfold rel. cbn. repeat split; try lia. constructor. Qed.
 
 Lemma concat_enc_snoc l x : concat (map enc (l ++ [x])) = concat (map enc l) ++ enc x.
@@ -149,14 +149,20 @@ Qed.
 
 (** * the handshake *)
 
-Lemma setup_ok s addr ver m w :
-  20 <= m <= 244 -> 1 <= w <= 255 -> sess_ok (setup s addr ver m w).
+Lemma setup_state_ok s addr ver m w :
+  20 <= m <= 244 -> 1 <= w <= 255 -> sess_ok (setup_state s addr ver m w).
 Proof.
-  intros Hm Hw. unfold sess_ok, setup, sw_ok, rw_ok.
-  cbn [send recv mtu hs_pending initiator swin slevel slast rlevel rack_level rmsgs rack_seq rbuf].
-  rewrite blen_nil. unfold RX_CAP.
-  repeat split; try lia; try (destruct (initiator s); lia).
+  intros Hm Hw. unfold sess_ok, setup_state, sw_ok, rw_ok.
+  cbn [send recv mtu hs_pending initiator swin slevel slast].
+  destruct (initiator s); cbn [rlevel rack_level rmsgs rack_seq rbuf negb];
+    rewrite blen_nil; unfold RX_CAP; repeat split; try lia; try discriminate.
 Qed.
+
+Lemma setup_eq s addr ver m w : 1 <= w -> setup s addr ver m w = Ok (setup_state s addr ver m w).
+Proof. intro Hw. unfold setup. destruct (initiator s); [rewrite csub_ok by lia|]; reflexivity. Qed.
+
+Lemma setup_state_rel s addr ver m w : rel (recv (setup_state s addr ver m w)) rs_init.
+Proof. unfold setup_state. cbn [recv]. destruct (initiator s); apply rel_init. Qed.
 
 Lemma initial_window_ok m : 20 <= m <= 244 ->
   exists iw, initial_window_size m = Ok iw /\ 6 <= iw <= 255 /\ iw * m <= 1583.
@@ -178,7 +184,7 @@ Qed.
 
 Lemma rx_handshake_req_cases s gatt addr h p :
   match process_rx_handshake_req s gatt addr h p with
-  | Ok s' => exists ver m w, s' = setup s addr ver m w /\ 20 <= m <= 244 /\ 1 <= w <= 255 /\
+  | Ok s' => exists ver m w, s' = setup_state s addr ver m w /\ 20 <= m <= 244 /\ 1 <= w <= 255 /\
                              w * m <= 1583
   | Err _ => True
   | Panic _ => False
@@ -196,6 +202,7 @@ Proof.
   assert (Hm0 : 23 <= m0 <= 247) by (unfold m0, clamp, MIN_MTU, MAX_MTU; lia).
   unfold GATT_HDR. rewrite csub_ok by lia. cbn [bind].
   destruct (initial_window_ok (m0 - 3)) as (iw & -> & Hiw & Hprod); [lia|]. cbn [bind].
+  rewrite setup_eq by lia.
   eexists _, (m0 - 3), (N.min (q_ws req) iw). split; [reflexivity|].
   split; [lia|]. split; [lia|].
   assert (N.min (q_ws req) iw * (m0 - 3) <= iw * (m0 - 3)) by (apply N.mul_le_mono_r; lia).
@@ -205,7 +212,7 @@ Qed.
 Lemma rx_handshake_resp_cases s addr h p :
   bytes_ok p ->
   match process_rx_handshake_resp s addr h p with
-  | Ok s' => exists ver m w, s' = setup s addr ver m w /\ 20 <= m <= 244 /\ 1 <= w <= 255
+  | Ok s' => exists ver m w, s' = setup_state s addr ver m w /\ 20 <= m <= 244 /\ 1 <= w <= 255
   | Err _ => True
   | Panic _ => False
   end.
@@ -222,6 +229,7 @@ Proof.
   destruct (N.ltb_spec (p_mtu resp) (23 - 3)); cbn [orb]; trivial.
   destruct (N.ltb_spec (247 - 3) (p_mtu resp)); cbn [orb]; trivial.
   destruct (N.eqb_spec (p_ws resp) 0); trivial.
+  rewrite setup_eq by lia.
   eexists _, _, _. split; [reflexivity|]. lia.
 Qed.
 
@@ -290,13 +298,13 @@ Proof.
     + pose proof (rx_handshake_resp_cases s a h p Hp) as Hc.
       destruct (process_rx_handshake_resp s a h p); trivial.
       destruct Hc as (ver & m & w & -> & Hm & Hw).
-      split; [apply setup_ok; assumption|].
-      exists h, p. split; [reflexivity|]. rewrite EH. unfold setup. cbn [recv]. apply rel_init.
+      split; [apply setup_state_ok; assumption|].
+      exists h, p. split; [reflexivity|]. rewrite EH. apply setup_state_rel.
     + pose proof (rx_handshake_req_cases s g a h p) as Hc.
       destruct (process_rx_handshake_req s g a h p); trivial.
       destruct Hc as (ver & m & w & -> & Hm & Hw & _).
-      split; [apply setup_ok; assumption|].
-      exists h, p. split; [reflexivity|]. rewrite EH. unfold setup. cbn [recv]. apply rel_init.
+      split; [apply setup_state_ok; assumption|].
+      exists h, p. split; [reflexivity|]. rewrite EH. apply setup_state_rel.
   - pose proof (rx_data_cases s h p q Hs Hrel Hlen) as Hc.
     destruct (process_rx_data s h p); trivial.
     destruct Hc as (Hs' & q' & Hq & Hrel').
@@ -447,7 +455,7 @@ Theorem hostile_safe ops :
   Forall op_ok ops -> mon_endpoint ops (snd (run inner_new ops)) = true.
 Proof.
   intro Hops. unfold mon_endpoint. apply mon_run_hinv; [|assumption].
-  split; [apply inner_new_ok|]. apply (rel_init 0 255).
+  split; [apply inner_new_ok|]. apply (rel_init 0 0 255).
 Qed.
 
 (** a refused segment leaves the end exactly as it was *)
